@@ -15,6 +15,19 @@ var LibLoader = packagelib.Loader{
 	Load: Load,
 }
 
+func init() {
+	// ipairsIterator and nextGoFunc are shared by all runtimes: declare their
+	// compliance once, at initialisation, rather than each time a runtime is
+	// created (which wrote to them concurrently when runtimes were created from
+	// different goroutines).
+	rt.SolemnlyDeclareCompliance(
+		rt.ComplyCpuSafe|rt.ComplyMemSafe|rt.ComplyTimeSafe|rt.ComplyIoSafe,
+
+		ipairsIterator,
+		nextGoFunc,
+	)
+}
+
 func Load(r *rt.Runtime) (rt.Value, func()) {
 	env := r.GlobalEnv()
 	r.SetEnv(env, "_G", rt.TableValue(env))
@@ -24,8 +37,6 @@ func Load(r *rt.Runtime) (rt.Value, func()) {
 	rt.SolemnlyDeclareCompliance(
 		rt.ComplyCpuSafe|rt.ComplyMemSafe|rt.ComplyTimeSafe|rt.ComplyIoSafe,
 
-		ipairsIterator,
-		nextGoFunc,
 		r.SetEnvGoFunc(env, "assert", assert, 1, true),
 		r.SetEnvGoFunc(env, "error", errorF, 2, false),
 		r.SetEnvGoFunc(env, "getmetatable", getmetatable, 1, false),
